@@ -16,6 +16,7 @@ import (
 	"io"
 	"os"
 	"strings"
+	"unicode/utf16"
 )
 
 type Item struct {
@@ -154,6 +155,14 @@ func textItems(path string) ([]Item, error) {
 	data, err := os.ReadFile(path)
 	if err != nil {
 		return nil, err
+	}
+	if len(data) >= 2 && data[0] == 0xff && data[1] == 0xfe {
+		// UTF-16-LE with a byte-order mark: project the text, not the encoding
+		u := make([]uint16, 0, len(data)/2)
+		for i := 2; i+1 < len(data); i += 2 {
+			u = append(u, uint16(data[i])|uint16(data[i+1])<<8)
+		}
+		data = []byte(string(utf16.Decode(u)))
 	}
 	body := data
 	for _, marker := range [][]byte{[]byte("# SIG # Begin signature block"), []byte("<!-- SIG # Begin signature block"), []byte("/* SIG # Begin signature block")} {
